@@ -77,11 +77,14 @@ void harness (void)
     {
         am_dies = am && m.ref == 1;
         expect_frees = 1 + ao.n_blocks + (am_dies ? 1 + mo.n_blocks : 0);
+        /* free accounting first: if the code freed something else than it should, nothing can be read safely */
+        VH_CHECK ("unref.last.every_owned_block_freed_once", vh_free_calls - frees0 == expect_frees);
+        if (vh_free_calls - frees0 != expect_frees)
+            { IH_STOP (); return; }
 #ifndef VI_ACOUNT
         VH_CHECK ("unref.last.destroy_callback_exactly_once", ih_cb_calls == (a.has_destroy ? 1 : 0));
         VH_CHECK ("unref.last.callback_before_any_free", !a.has_destroy || ih_cb_frees_seen == frees0);
         VH_CHECK ("unref.last.callback_gets_image_and_data", !a.has_destroy || ih_cb_args_ok);
-        VH_CHECK ("unref.last.every_owned_block_freed_once", vh_free_calls - frees0 == expect_frees);
         if (am && !am_dies)
         {
             VH_CHECK ("unref.last.alpha_map_lost_exactly_one_reference", am->common.ref_count == m.ref - 1);
@@ -103,11 +106,13 @@ void harness (void)
     }
     else
     {
+        VH_CHECK ("unref.notlast.nothing_freed", vh_free_calls == frees0);
+        if (vh_free_calls != frees0)
+            { IH_STOP (); return; }
 #ifndef VI_ACOUNT
         VH_CHECK ("unref.notlast.ref_count_minus_one", img->common.ref_count == a.ref - 1);
         VH_CHECK ("unref.notlast.nothing_else_changed", ih_common_equal (&img->common, &before.copy.common, 1, 0)
                                                         && ih_specific_equal (img, &before.copy));
-        VH_CHECK ("unref.notlast.nothing_freed", vh_free_calls == frees0);
         VH_CHECK ("unref.notlast.no_callback", ih_cb_calls == 0 && ih_cb2_calls == 0);
         if (am)
             VH_CHECK ("unref.notlast.alpha_map_untouched",
